@@ -19,7 +19,10 @@ import (
 func init() { register("C17", "exploration", c17) }
 
 func c17Num(r *rand.Rand) model.Value {
-	switch r.Intn(8) {
+	switch r.Intn(9) {
+	case 8:
+		// neighbours beyond 2^53, where float64 can no longer tell integers apart
+		return model.Int([]int64{9007199254740992, 9007199254740993, 9007199254740994, 9223372036854775807, 9223372036854775806, 9223372036854774784, -9007199254740993, -9007199254740992, -9223372036854775807}[r.Intn(9)])
 	case 0:
 		return model.Int([]int64{0, 1, 2, 9, 10, 11, 99, 100, 101, 1000, -1, -2, -10, -9, -100, 5, 50, 500}[r.Intn(18)])
 	case 1:
